@@ -146,6 +146,9 @@ type Case struct {
 	// HoldStartInRecovery: a scripted Start is not issued while the pipeline reports Recovering
 	// (used to keep the search going behind a known finding of that shape).
 	HoldStartInRecovery bool `json:"hold_start_in_recovery,omitempty"`
+	// WaitAtEnd: once the pipeline has ended and every call has returned, one more WaitPipeline
+	// is issued (a waiter that arrives after the run's cleanup).
+	WaitAtEnd bool `json:"wait_at_end,omitempty"`
 	// StatusFailAt lists the status writes (0 = the first one of the case) whose store write fails.
 	StatusFailAt []int `json:"status_fail_at,omitempty"`
 	// LogDelayMs > 0: the engine's log sink is slow, every warn/error line takes this long to
